@@ -56,8 +56,33 @@ KeyElem(name, form) == [t |-> "key", b |-> <<form>>, n |-> KeyLen(form), k |-> n
 \*   64 schnorr 64 bytes (ht = 0 implicit) / 65 bytes (ht # 0 appended)
 \* svc: 0 base, 1 v0, 2 tapscript, 3 taproot key path, 4 / 5 key path / tapscript
 \* committing to an annex;  cs: code separator position signed
+\*   10..26 malformed shapes, one per way BIP66's IsValidSignatureEncoding can
+\*          fail (ShapeBody); 27 the shortest strict DER encoding (r = s = 1):
+\*          well formed, valid for no key
+\* byte length of the shape bodies (without the hash type byte)
+ShapeBody(cls) ==
+    CASE cls = 10 -> 6    \* 30 04 02 01 01 02                       too short
+      [] cls = 11 -> 73   \* 30 47 02 23 <35> 02 20 <32>             too long
+      [] cls = 12 -> 8    \* 31 06 02 01 01 02 01 01                 wrong sequence tag
+      [] cls = 13 -> 8    \* 30 07 02 01 01 02 01 01                 total length wrong
+      [] cls = 14 -> 8    \* 30 06 03 01 01 02 01 01                 R tag wrong
+      [] cls = 15 -> 8    \* 30 06 02 00 02 02 01 01                 R length zero
+      [] cls = 16 -> 8    \* 30 06 02 01 81 02 01 01                 R negative
+      [] cls = 17 -> 9    \* 30 07 02 02 00 01 02 01 01              R excessively padded
+      [] cls = 18 -> 8    \* 30 06 02 01 01 03 01 01                 S tag wrong
+      [] cls = 19 -> 8    \* 30 06 02 02 01 01 02 00                 S length zero
+      [] cls = 20 -> 8    \* 30 06 02 01 01 02 01 81                 S negative
+      [] cls = 21 -> 9    \* 30 07 02 01 01 02 02 00 01              S excessively padded
+      [] cls = 22 -> 8    \* 30 06 02 03 01 01 01 02                 S tag on the last byte: S length missing
+      [] cls = 23 -> 8    \* 30 06 02 05 01 01 01 01                 R length runs past the end: S tag missing
+      [] cls = 24 -> 8    \* 30 06 02 01 01 02 02 01                 S length past the end
+      [] cls = 25 -> 8    \* 30 06 02 01 01 02 00 01                 S length short of the end
+      [] cls = 26 -> 8    \* 30 06 02 ff 01 01 01 01                 R length 255
+      [] cls = 27 -> 8    \* 30 06 02 01 01 02 01 01                 strict DER, r = s = 1
+ShapeClasses == 10..27
 SigLen(cls, ht) == CASE cls = 0 -> 71 [] cls = 1 -> 72 [] cls = 2 -> 72
                      [] cls = 64 -> (IF ht = 0 THEN 64 ELSE 65)
+                     [] cls \in ShapeClasses -> ShapeBody(cls) + 1
 SigElem(name, ht, cls, svc, cs) ==
     [t |-> "sig", b |-> <<ht, cls, svc, cs>>, n |-> SigLen(cls, ht), k |-> name, r |-> <<>>]
 
@@ -239,6 +264,7 @@ MinimalIfViolated(e) == e.n > 1 \/ (e.n = 1 /\ e # TrueElem)
 SigClass(e) ==
     IF e.n = 0 THEN "empty"
     ELSE IF e.t = "sig" THEN (CASE e.b[2] = 0 -> "der" [] e.b[2] = 1 -> "derhighs" [] e.b[2] = 2 -> "ber"
+                                [] e.b[2] = 27 -> "der"        \* well formed; EcdsaValid knows it is valid for nothing
                                 [] OTHER -> "notder")
     ELSE "notder"
 \* last byte of a non-empty would-be ECDSA signature: only known for signature elements
